@@ -2,6 +2,8 @@
 """seed_replays.py [name...]: for every kept seeded change (seeded/<name>/patch.diff) apply it to /repo, run the
 quick check of its property, keep the first failing-input replay as seeded/<name>/replay.json (the corpus every
 check runs first), record whether the check went red, and undo the patch straight afterwards."""
+import os as _os
+_os.environ['VERIF_EVIDENCE_DIR'] = '/verif/work/evidence_scratch'
 import glob, json, os, shutil, subprocess, sys
 names = [a for a in sys.argv[1:] if not a.startswith('--')] or sorted(os.path.basename(d) for d in glob.glob('/verif/seeded/*') if os.path.isdir(d))
 for name in names:
